@@ -244,6 +244,15 @@ def bits2int_order(chk):
             chk.violation(R, inst, F.where(), 'br_%s_rshift runs over the bit length recorded by the decoding of a possibly secret value (the RFC 6979 nonce): '
                           'its loop count reveals the top bits of that value' % w, key='%s %s' % (R, w))
 
+# ---- RSA decryption paddings: the decrypted block is secret until the documented verdict / length is released
+entry('rsa_ssl_decrypt[i31]', 'br_rsa_ssl_decrypt', [FN('br_rsa_i31_private'), X(1), X(2), BOT],
+      dict(list({(1, 8): whole('sk.p'), (1, 24): whole('sk.q'), (1, 40): whole('sk.dp'), (1, 56): whole('sk.dq'), (1, 72): whole('sk.iq')}.items()) + [((2,), whole('x'))]))
+# br_rsa_oaep_unpad is NOT entered: MGF1 hashes the secret block through a local hash context, and the memory model smears the labels of
+# the context's block buffer over its byte counter (range summaries have no upper bound), which floods the hash code with false reports.
+# ECDSA with the specialised P-256 back ends
+entry('ecdsa_i31.sign_raw[p256_m31]', 'br_ecdsa_i31_sign_raw', [G('br_ec_p256_m31'), G('br_sha256_vtable'), X(2), X(3), X(4)], {(3, 8): whole('sk.x')})
+entry('ecdsa_i15.sign_raw[p256_m15]', 'br_ecdsa_i15_sign_raw', [G('br_ec_p256_m15'), G('br_sha256_vtable'), X(2), X(3), X(4)], {(3, 8): whole('sk.x')})
+
 
 def run_entry(e, units):
     pol = Policy(e['rules'], nonct=e['nonct'])
